@@ -34,7 +34,7 @@ ValsB   == IF LAT = 0 THEN {Q(-1, 1), One} ELSE {Q(-1, 1), One, Q(1, 4)}
 Rewards == IF LAT = 0 THEN {Q(-1, 1), Half} ELSE {Q(-1, 1), Zero, Half}
 Gammas  == {Zero, Half, One}
 Lrs     == IF LAT = 0 THEN {Half, One} ELSE {Q(1, 4), Half, One}
-Flips   == IF LAT = 0 THEN {0} ELSE {0, 1}
+Flips   == IF LAT = 0 \/ NS > 2 THEN {0} ELSE {0, 1}
 Dists   == IF NS = 2 THEN {<<One, Zero>>, <<Half, Half>>, <<Q(1, 4), Q(3, 4)>>}
            ELSE {<<One, Zero, Zero>>, <<Half, Half, Zero>>, <<Q(1, 4), Q(1, 4), Half>>,
                  <<Zero, Half, Half>>, <<Q(1, 3), Q(1, 3), Q(1, 3)>>}
